@@ -21,7 +21,9 @@ Back(mm) == LET ns == EncodeRoot(mm, <<>>, EO) IN Decode(ns[1], DefDec)
 ML == VM(RK :> VL(<<VS(<<"x">>), b1>>))
 \* the list <<M1, M2>> (and, when b2 is still empty, the one-Map lists <<M1>>, <<ML>> and <<ML, M1>>)
 \* (and lists in which an EMPTY Map is not the last member: JSON "{}", XML <doc/>)
-Lists == IF b2 = EmptyMap THEN {<<M1>>, <<M1, M2>>, <<ML>>, <<ML, M1>>, <<EmptyMap, M1>>} ELSE {<<M1, M2>>}
+\* a Map whose only key is "object" holding a list: what NewMapJson returns for a bare JSON list -- written as the object it is
+MO == VM(<<"o", "b", "j", "e", "c", "t">> :> VL(<<VS(<<"x">>), b1>>))
+Lists == IF b2 = EmptyMap THEN {<<M1>>, <<M1, M2>>, <<ML>>, <<ML, M1>>, <<EmptyMap, M1>>, <<MO, M1>>} ELSE {<<M1, M2>>}
 \* theorem: reading back the written XML file gives one Map per written Map, in order, each the fixed point of its own round trip
 ThmXmlBack == \A ms \in Lists : \A i \in 1..Len(ms) : ~XmlErr(ms[i]) =>
                  LET bk == Back(ms[i]) IN Decode(EncodeRoot(bk, <<>>, EO)[1], DefDec) = bk
@@ -33,7 +35,7 @@ LCase(ms) == LET anyErr == \E i \in 1..Len(ms) : XmlErr(ms[i]) IN
     json |-> Join(FlatC([i \in 1..Len(ms) |-> JsonOf(ms[i], FALSE)]))]
 Emit == PrintT(ToJson([f |-> "filert", cs |-> SetToSeq({LCase(ms) : ms \in Lists})]))
 Spec == GenSpec
-cKeys == {<<"a">>, <<"b">>, <<"-", "x">>}
+cKeys == {<<"a">>, <<"b", "r">>, <<"-", "x">>}       \* (br: a name an HTML-minded reader would close on sight; here it is an element like any other)
 cScalars == {VS(<<"{", "}">>), VS(<<"\"", "\\">>), VS(<<" ", "y">>), VF(<<"1", ".", "5">>), VB(<<"t", "r", "u", "e">>)}
 cScalarsQ == {VS(<<"{", "\"", "\\", "}", "~", "\\", "u", "0", "0", "3", "c">>), VF(<<"1", ".", "5">>)}      \* (~ stands for a two-byte character; the tail is the six characters \u003c, not "<")
 cConts == {EmptyMap, EmptyList}
